@@ -11,6 +11,9 @@ Case kinds (the ``kind`` field of every failure input, enough to replay one case
                "pairs": all 64 ordered pairs of the eight operations x 2x2 small parameter sets x generated 4-6 row tables
                with onset/duration/x/y/v columns, as ONE validated two-operation list through Dispatcher.run_operations,
                judged step by step against the single-operation oracles; the list must run to completion
+               "extra-columns": every operation / ordered pair on tables with two further text columns that no operation
+               names (quotes, outer blanks, numbers as text, n/a): besides the meaning oracles, clause
+               C17.frame.unnamed_columns_untouched - columns the parameters do not name come back cell for cell unchanged
   history      one op list, 1-3 tables, one processing order through ONE Dispatcher vs. a fresh one per table
   invalid      an op list that must be rejected by RemodelerValidator with messages
   cli_invalid  the same through run_remodel.main: ValueError before anything is executed / touched
@@ -395,6 +398,60 @@ ORACLES = {"remove_rows": o_remove_rows, "remove_columns": o_remove_columns, "re
            "merge_consecutive": o_merge_consecutive, "split_rows": o_split_rows}
 
 
+ROW_PRESERVING = ("remove_columns", "rename_columns", "reorder_columns", "factor_column", "remap_columns")
+
+
+def named_strings(v, out=None):
+    """every string that occurs in an operation's parameters (values and object keys): a superset of the columns it names"""
+    out = set() if out is None else out
+    if isinstance(v, str):
+        out.add(v)
+    elif isinstance(v, dict):
+        for k, x in v.items():
+            out.add(str(k))
+            named_strings(x, out)
+    elif isinstance(v, (list, tuple)):
+        for x in v:
+            named_strings(x, out)
+    return out
+
+
+def project(t, keep):
+    cols, rows = t
+    idx = [i for i, c in enumerate(cols) if keep(c)]
+    return [cols[i] for i in idx], [[r[i] for i in idx] for r in rows]
+
+
+def unnamed_columns_check(op, before, expected, opts, obs):
+    """columns of the input table that the operation's parameters do not name come back cell for cell as they went in (as far
+    as the operation returns them).  Row-preserving operations: judged against the INPUT table alone; operations that remove,
+    merge or add rows: against the documented row selection (the oracle's rows), projected on those columns.
+    -> None | (observed, expected)"""
+    named = named_strings(op["parameters"])
+    if op["operation"] in ("merge_consecutive", "split_rows"):
+        named |= {"onset", "duration"}          # the time columns these operations work on by their documentation
+    bcols, brows = before
+    ocols, orows = obs
+    unnamed = [c for c in bcols if c not in named and c in ocols]
+    if not unnamed:
+        return None
+    keep = lambda c: c in unnamed
+    got = project(obs, keep)
+    got = (sorted(got[0]), [[r[got[0].index(c)] for c in sorted(got[0])] for r in got[1]])
+    if op["operation"] in ROW_PRESERVING:
+        want = project(before, keep)
+    else:
+        want = project(expected, keep)
+    want = (sorted(want[0]), [[r[want[0].index(c)] for c in sorted(want[0])] for r in want[1]])
+    rows_g = [[text(c) for c in r] for r in got[1]]
+    rows_w = [[text(c) for c in r] for r in want[1]]
+    if opts.get("sorted_by"):
+        rows_g, rows_w = sorted(rows_g), sorted(rows_w)
+    if got[0] != want[0] or rows_g != rows_w:
+        return {"cols": got[0], "rows": rows_g}, {"cols": want[0], "rows": rows_w}
+    return None
+
+
 def compare(expected, opts, obs):
     """observed view vs oracle table, honouring the oracle's options"""
     ecols, erows = expected
@@ -596,10 +653,18 @@ def eval_meaning(payload):
             if alone[0] != "ok" or not frames_identical(alone[1].reset_index(drop=True), got[1].reset_index(drop=True)):
                 fails.append(("C17.compose.step_equals_operation_on_relabelled_intermediate", step_inp, outcome_js(got),
                               outcome_js(alone)))
+        unnamed_bad = unnamed_columns_check(op, view(cur), exp[1], exp[2], obs)
+        if unnamed_bad:
+            fails.append(("C17.frame.unnamed_columns_untouched", step_inp, unnamed_bad[0], unnamed_bad[1]))
         if not compare(exp[1], exp[2], obs):
             if op["operation"] == "merge_consecutive" and mixed_text_dtypes(cur, op["parameters"]):
                 label = "C17.meaning.merge_consecutive_mixed_str_object_columns"
-            fails.append((label, step_inp, js_view(obs), js_view(exp[1])))
+            named = named_strings(op["parameters"]) | {"onset", "duration"}
+            in_cols = set(view(cur)[0])
+            is_named = lambda c: c in named or c not in in_cols
+            if not (unnamed_bad and compare(project(exp[1], is_named), exp[2], project(obs, is_named))):
+                # (a difference confined to the columns the operation does not name is reported under the frame clause only)
+                fails.append((label, step_inp, js_view(obs), js_view(exp[1])))
             break
         if not same_table(view(cur), obs):
             nontrivial = True
@@ -1222,6 +1287,68 @@ def pair_tables(rng, k):
     return out
 
 
+EXTRA_TEXT = ['said "go"', "it's late", " lead", "trail ", "007", "1.50", "n/a", "'q'", 'a "b" c', "5'", "x", "-3", "1e3", "a b",
+              'end"', "''", 'he said: "a", then "b"', "n/a ", "N/A", "3'4\""]
+
+
+def add_extra_columns(tab, rng, k):
+    """two further columns, 'note' and 'memo' (named by no generated operation), holding text with double / single quotes,
+    leading / trailing blanks, numbers written as text and n/a; inserted last, first or between the other columns"""
+    t = copy.deepcopy(tab)
+    n = len(t["rows"])
+    for j, name in enumerate(("note", "memo")):
+        pos = [len(t["cols"]), 0, len(t["cols"]) // 2][(k + j) % 3]
+        quoted = ['said "go"', "it's late", "'q'", 'a "b" c', "5'", 'end"', "''", 'he said: "a", then "b"', "3'4\""]
+        # the first cell always carries a quote character (this also keeps the column a text column for the tsv parse)
+        cells = [quoted[(k + 4 * j) % len(quoted)] if i == 0 else EXTRA_TEXT[(k * 5 + j * 7 + 3 * i) % len(EXTRA_TEXT)] for i in range(n)]
+        if j == 1 and n > 1 and k % 2:
+            cells[1] = rng.choice(EXTRA_TEXT)
+        t["cols"].insert(pos, name)
+        for r, c in zip(t["rows"], cells):
+            r.insert(pos, c)
+    return t
+
+
+def extra_column_cases(rng, singles, quick):
+    """every operation (the pair parameter sets + a sample of the generated parameter sets) alone, and every ordered pair of
+    operations, on tables that carry the two extra text columns"""
+    cases = []
+    k = 0
+    gen = generic_tables(rng, 2, 6, 8)
+    ints = intkey_tables(rng, 6)
+    times = time_tables(rng, 10)
+    pairs_t = pair_tables(rng, 4 if quick else 10)
+    for name in OPS8:
+        psets = [(p, "pair") for p in PAIR_PARAMS[name]]
+        pool = singles[name]
+        step = max(1, len(pool) // (6 if quick else 30))
+        psets += pool[::step]
+        for p, fam in psets:
+            tabs = {"pair": pairs_t, "generic": gen, "intkey": ints, "time": times}[fam]
+            if fam == "time":
+                tabs = [t for t in tabs if time_ok_for(name, p, t)]
+            for t in tabs[:(3 if quick else 10)] if fam != "pair" else tabs:
+                k += 1
+                cases.append({"kind": "meaning", "ops": [op_dict(name, copy.deepcopy(p))], "table": add_extra_columns(t, rng, k),
+                              "part": "extra-columns"})
+    for n1 in OPS8:
+        for n2 in OPS8:
+            for t in pairs_t[:(1 if quick else 3)]:
+                k += 1
+                cases.append({"kind": "meaning", "ops": [op_dict(n1, copy.deepcopy(PAIR_PARAMS[n1][k % 2])),
+                                                         op_dict(n2, copy.deepcopy(PAIR_PARAMS[n2][(k // 2) % 2]))],
+                              "table": add_extra_columns(t, rng, k), "part": "extra-columns"})
+    # generator precondition: the extra cells reach the operation as written (the tsv parse keeps them)
+    for c in cases:
+        cols, rows = view(build_df(c["table"]))
+        for r, r0 in zip(rows, c["table"]["rows"]):
+            for name in ("note", "memo"):
+                a, b = text(r[cols.index(name)]), r0[c["table"]["cols"].index(name)]
+                if a != b:
+                    raise AssertionError("workload precondition: extra cell %r parsed as %r" % (b, a))
+    return cases
+
+
 def pair_cases(rng, n_tables):
     tabs = pair_tables(rng, n_tables)
     cases = []
@@ -1278,6 +1405,8 @@ def build_cases(w):
     n_comp = len(cases) - n_single
     cases += pair_cases(rng, 5 if quick else 24)
     n_pairs = len(cases) - n_single - n_comp
+    cases += extra_column_cases(rng, singles, quick)
+    n_extra = len(cases) - n_single - n_comp - n_pairs
     # ---- history
     seqs = SEQS_QUICK if quick else SEQS_ALL
     n0 = len(cases)
@@ -1313,7 +1442,8 @@ def build_cases(w):
             cases.append({"kind": "invalid", "why": why + " (first, before a valid operation)", "ops": copy.deepcopy(ops) + [copy.deepcopy(good)]})
             cases.append({"kind": "cli_invalid", "why": why + " (second, after a valid operation)", "ops": [copy.deepcopy(good)] + copy.deepcopy(ops)})
     n_inv = len(cases) - n0
-    return cases, {"param_sets": counts, "single": n_single, "composed": n_comp, "pairs": n_pairs, "history": n_hist, "invalid": n_inv}
+    return cases, {"param_sets": counts, "single": n_single, "composed": n_comp, "pairs": n_pairs, "history": n_hist, "invalid": n_inv,
+                   "extra": n_extra}
 
 
 def sig(p):
@@ -1366,6 +1496,14 @@ def run(w: Workload):
                  "broken by removable rows, match column, numeric-looking column; 2 fixed + seeded); each step judged by the "
                  "single-operation oracle on the real intermediate table, fresh row labels after every step, and step == operation "
                  "alone on the re-labelled intermediate table" % (5 if w.quick else 24), exhaustive=False)
+    w.part("tables with extra text columns that no operation names", cases=info["extra"],
+           bound="every operation alone (its 2 pair parameter sets x %d tables of 4-6 rows + ~%d of its generated parameter sets x %d "
+                 "tables of their family) and all 8x8 ordered pairs (x %d table), on tables extended by two columns 'note' and "
+                 "'memo' (last / first / in the middle) whose cells hold double and single quotes, leading / trailing blanks, numbers "
+                 "written as text and n/a (%d texts); judged by the ordinary meaning oracles AND by clause "
+                 "C17.frame.unnamed_columns_untouched (row-preserving operations: against the input table alone)"
+                 % (4 if w.quick else 10, 6 if w.quick else 30, 3 if w.quick else 10, 1 if w.quick else 3, len(EXTRA_TEXT)),
+           exhaustive=False)
     w.part("history / frame: one Dispatcher, 1-3 tables, every processing order", cases=info["history"],
            bound="sequences of length <=3 over 3 tables with different column sets" + (" (8 sequences)" if w.quick else " (all 39)"),
            exhaustive=not w.quick)
